@@ -49,6 +49,16 @@ PROPS["C05"] = {
     "rule": "cases = (queue capacity 1/2/3/8, 1-3 producers with 1-4 put+wake operations each, random PCT-flavoured schedule over the scheduling points put / CAS flag / write event / take / pop / store0 / check / store1, deterministic completion); non-trivial = queue full, slow path (event handed to the send loop), consumer stepped while active, re-check found work; distinct by hash of op lines",
     "assumptions": ["put and pop are atomic at this granularity (C04)", "every polling event written to the connection or handed to the send loop is eventually delivered"],
 }
+PROPS["C03"] = {
+    "claim": "Proof. Lean model of createBufferManager / createFreeBufferList / countBufferListMemSize / mappingBufferManager / mappingFreeBufferList / the queue-manager halves with Go's typed arithmetic (uint32/uint64 wrap, int, uint16 truncation, divide-by-zero as panic). Proved for EVERY sane configuration (memLen < 2^32, every Size+20 < 2^32, percents <= 100 each, 36*k+8 <= memLen): createBufferManager_sane (never panics; error or classes laid out back to back behind their headers inside the mapping), wellLaid_disjoint + slots_disjoint (pairwise disjoint classes and slots), mappingBufferManager_roundtrip (the mapper re-derives exactly the creator's geometry), queue_crosswired (creator.send = mapper.recv, creator.recv = mapper.send, disjoint, for every cap with 24+12*cap < 2^32). Excluded inputs are shown with kernel-checked witnesses (c03_divzero_witness). Tied by skeletons/constants (tie 1) and differential runs of the real functions on generated configurations (tie 2).",
+    "note": "Trusted: Lean kernel; extractor; harness; that mmap of one file/memfd gives both processes the same bytes (modelled, not verified).",
+    "technique": "Lean 4 proof (typed-arithmetic model, loop invariant by induction over the pair list, round-trip theorem) + skeleton/constant tie + differential correspondence",
+    "design_ref": "DESIGN.md §5 C03",
+    "lean_modules": ["ShmVerif.Tie.C03", "ShmVerif.Props.C03"],
+    "harness": True, "level": "proof", "trusted_base": COMMON_TB,
+    "rule": "cases = (memory size: VerifyConfig-accepted 1-64 MiB / small 1-5000 bytes / boundary values; 0-5 classes; sizes 0, tiny, fraction of memory, near memory size, 4096k-20, random; percents splitting 100 or perturbed; queue capacity 0/1/2/3/8/1024/random) -> verify, create, map, queue; non-trivial = create ok / err / panic, VerifyConfig accept, multi-class; distinct by hash of op lines",
+    "assumptions": ["both processes see the same bytes at the same length (mmap)", "amd64 field offsets for the queue header (4, 12, 20)"],
+}
 PROPS["C02"] = dict(PROPS["C01"], lean_modules=["ShmVerif.Tie.C01", "ShmVerif.Props.C02"],
     claim="PARTIAL proof. Proved in Lean: c02_conservation_seq and c02_quiescent_full_seq (every sequential-atomic history: free count = chain length, free count + owned = capacity; when nothing is owned size = cap and the walk from head visits every slot exactly once and ends at tail), c02_failed_alloc_consumes_nothing (a failing pop restores every shared word), c02_aba_witness (kernel-checked: after the ABA schedule and full recycling size = cap = 4 but the walk visits 2 slots - known finding F1, replayed on the real code every run). Conservation for ABA-free concurrent interleavings is not proved; covered by scheduler correspondence + quiescence monitors (size, chain walk, count never exceeds capacity).",
     design_ref="DESIGN.md §5 C02")
